@@ -80,6 +80,10 @@ func (to *TargetOptions) IsHealthCheckRequest(r *http.Request) bool {
 }
 
 func (to *TargetOptions) canonicalizeLogHeaders() {
+	// The slices are shared with the service's options and with every other
+	// target of the service: canonicalize copies, not the shared arrays.
+	to.LogRequestHeaders = append([]string(nil), to.LogRequestHeaders...)
+	to.LogResponseHeaders = append([]string(nil), to.LogResponseHeaders...)
 	for i, header := range to.LogRequestHeaders {
 		to.LogRequestHeaders[i] = http.CanonicalHeaderKey(header)
 	}
